@@ -57,7 +57,8 @@ def config_key(features, env, debug_assertions):
 def mir_text(features=(), env=None, debug_assertions=False, repo=None, verbose=False):
     """returns (text, info) for the current working tree of `repo`"""
     repo = repo or REPO
-    env = dict(env or {})
+    ambient = {k: v for k, v in os.environ.items() if k.startswith('RUST_BIGDECIMAL_')}
+    env = dict(ambient, **(env or {}))      # build-time configuration: ambient variables overridden by the explicit ones
     key = config_key(features, env, debug_assertions)
     digest = tree_hash(repo, key)
     os.makedirs(CACHE, exist_ok=True)
